@@ -233,8 +233,13 @@ where
         Some(c) => Box::new(std::iter::once(c)),
         None => Box::new((0..n).filter(|i| i % args.nshards == args.shard)),
     };
+    // VERIF_TRACE_CASES=1: print each case index before it runs (to attribute an abort or a runaway)
+    let trace = std::env::var_os("VERIF_TRACE_CASES").is_some();
     for i in range {
         rep.case = i;
+        if trace {
+            eprintln!("[case] {label} {i}");
+        }
         let mut rng = Rng::for_case(args.seed, label, i);
         let r = catch_unwind(AssertUnwindSafe(|| f(i, &mut rng, rep)));
         if r.is_err() {
